@@ -98,7 +98,7 @@ fn pillar_with_branch(b: i64) -> SixtyCycle {
   SixtyCycle::from_index((0..60).find(|c| c % 12 == b).unwrap() as isize)
 }
 
-pub fn run(_cfg: &Cfg) -> (Log, Meta) {
+pub fn run(cfg: &Cfg) -> (Log, Meta) {
   let mut log = Log::new();
   // ---- raw tables, parsed independently
   let (rg, rt, rh) = (raw_day_gods(), raw_day_taboo(), raw_hour_taboo());
@@ -220,6 +220,74 @@ pub fn run(_cfg: &Cfg) -> (Log, Meta) {
       }
     }
   }
+  // ---- the same cells in drawn order on many threads at once: a cell's lists do not depend on which cell was
+  // decoded just before on this thread, nor on what other threads are decoding at the same moment
+  {
+    let nq = cfg.tier.pick(400_000usize, 6_000_000usize);
+    let (gods, dtab, htab) = (&gods, &dtab, &htab);
+    log.merge(crate::util::par_range(nq, 64, |i, l| {
+      let mut rng = crate::util::Rng::new(crate::util::mix(cfg.seed, (i / 8) as u64 ^ 0x1C18));
+      // runs of 8 queries share a small neighbourhood of cells, so that the same and adjacent cells recur
+      let base_d = rng.range(0, 59);
+      let base_b = rng.range(0, 11);
+      let mut r2 = crate::util::Rng::new(crate::util::mix(cfg.seed, i as u64 ^ 0x2C18));
+      let d = (base_d + r2.range(0, 2) * *r2.pick(&[0i64, 1, 10, 12, 30])).rem_euclid(60);
+      let b = (base_b + r2.range(0, 1) * r2.range(0, 11)).rem_euclid(12);
+      let hour_table = r2.chance(1, 2);
+      let order = r2.below(4);
+      l.ev(1);
+      l.count("concurrent.cell_queries", 1);
+      let key = format!("{}_{:02}_{}", pillar_name(d), b, if hour_table { "hour" } else { "day" });
+      let day = SixtyCycle::from_index(d as isize);
+      let other = pillar_with_branch(b);
+      let r = guard(|| {
+        let rec = |x: bool| -> Vec<i64> {
+          taboo_idx(&match (hour_table, x) {
+            (true, true) => Taboo::get_hour_recommends(day.clone(), other.clone()),
+            (true, false) => Taboo::get_hour_avoids(day.clone(), other.clone()),
+            (false, true) => Taboo::get_day_recommends(other.clone(), day.clone()),
+            (false, false) => Taboo::get_day_avoids(other.clone(), day.clone()),
+          })
+        };
+        let (a, v) = match order {
+          0 => {
+            let a = rec(true);
+            (Some(a), Some(rec(false)))
+          }
+          1 => {
+            let v = rec(false);
+            (Some(rec(true)), Some(v))
+          }
+          2 => (Some(rec(true)), None),
+          _ => (None, Some(rec(false))),
+        };
+        let g = if !hour_table && r2.chance(1, 2) { Some(god_idx(&God::get_day_gods(other.clone(), day.clone()))) } else { None };
+        (a, v, g)
+      });
+      match r {
+        Ok((a, v, g)) => {
+          let want = if hour_table { htab[b as usize].as_ref().map(|t| t[d as usize].clone()) } else { dtab[b as usize].as_ref().map(|t| t[d as usize].clone()) };
+          if let Some((wa, wv)) = want {
+            if a.as_ref().map(|x| *x != wa).unwrap_or(false) || v.as_ref().map(|x| *x != wv).unwrap_or(false) {
+              l.violate(format!("C18/concurrent-taboo-vs-raw/{}", key), "Taboo lists while other cells are decoded", key.clone(), format!("{:?} / {:?}", a, v), format!("{:?} / {:?}", wa, wv));
+            }
+          }
+          if let (Some(a), Some(v)) = (&a, &v) {
+            if let Some(x) = a.iter().find(|x| v.contains(x)) {
+              l.violate(format!("C18/concurrent-recommend-and-avoid/{}", key), "Taboo lists while other cells are decoded", key.clone(), format!("activity {} both recommended and avoided", x), "disjoint".into());
+            }
+          }
+          if let (Some(g), Some(t)) = (g, &gods[((b - 2).rem_euclid(12)) as usize]) {
+            if t[d as usize] != g {
+              l.violate(format!("C18/concurrent-gods-vs-raw/{}", key), "God::get_day_gods while other cells are decoded", key.clone(), format!("{:?}", g), format!("{:?}", t[d as usize]));
+            }
+          }
+        }
+        Err(msg) => l.violate(format!("C18/concurrent-panic/{}", key), "almanac tables while other cells are decoded", key.clone(), format!("panic: {}", msg), "decodes".into()),
+      }
+    }));
+    log.count("concurrent.threads", crate::util::threads() as u64);
+  }
   // ---- spirits: luck class = list split at 60
   for i in 0..151i64 {
     log.ev(1);
@@ -285,6 +353,8 @@ pub fn run(_cfg: &Cfg) -> (Log, Meta) {
     }
   }
   let _ = first_dn;
+  log.floor("concurrent.cell_queries", cfg.tier.pick(400_000, 6_000_000));
+  log.floor("concurrent.threads", 2);
   log.floor("cells.month_branch_x_day_pillar", 720);
   log.floor("cells.day_pillar_x_hour_branch", 720);
   log.floor("spirits.classified", 151);
@@ -292,7 +362,7 @@ pub fn run(_cfg: &Cfg) -> (Log, Meta) {
   log.floor("raw.god_entries", 3_000);
   log.floor("raw.taboo_entries", 10_000);
   let meta = Meta {
-    rule: "finite domain enumerated completely: 12 x 60 (month branch, day pillar) cells (spirits, recommended, avoided: decode, >= 1 spirit, names in their lists, recommended and avoided disjoint, API == independent parse of the raw DAY_GODS / DAY_TABOO tables read through the guarded hook), 60 x 12 (day pillar, hour branch) cells likewise against HOUR_TABOO, raw tables well-formed (60 records per line, one record per day index, even hex length, spirit index < 151, activity index < 141), 151 spirits classed by the list split at 60, kitchen-god attributes of every lunar year -1..9999 equal to the step counts from the New-Year day's stem/branch recomputed from the day number. Non-trivial = every table cell.".into(),
+    rule: "finite domain enumerated completely: 12 x 60 (month branch, day pillar) cells (spirits, recommended, avoided: decode, >= 1 spirit, names in their lists, recommended and avoided disjoint, API == independent parse of the raw DAY_GODS / DAY_TABOO tables read through the guarded hook), 60 x 12 (day pillar, hour branch) cells likewise against HOUR_TABOO, raw tables well-formed (60 records per line, one record per day index, even hex length, spirit index < 151, activity index < 141), 151 spirits classed by the list split at 60, then the cells again in drawn order on all worker threads at once (runs of 8 queries around one cell: same / adjacent / +10 / +12 / +30 pillars, day and hour tables mixed, recommended-first, avoided-first or only one list) against the same independent parse; kitchen-god attributes of every lunar year -1..9999 equal to the step counts from the New-Year day's stem/branch recomputed from the day number. Non-trivial = every table cell.".into(),
     assumptions: vec!["New-Year day of a lunar year = first day of month 1 as reported by the library (C03/C05); pillar by (N+49) mod 60".into()],
     exhaustive: true,
   };
